@@ -2,6 +2,7 @@ package main
 
 import (
 	"fmt"
+	"os"
 	"go/types"
 	"sort"
 	"strings"
@@ -68,6 +69,18 @@ func runParser(p *Program, fn *ssa.Function, o parserOpts) *parserRun {
 			pr.Cutoff++
 		default:
 			pr.Stuck = append(pr.Stuck, o)
+		}
+	}
+	if os.Getenv("PRISMCHECK_TRACE") == "parser" {
+		fmt.Fprintf(os.Stderr, "PARSER %s: %d succ %d fail %d cutoff %d stuck, %d paths\n", shortFn(fn), len(pr.Succ), len(pr.Fail), pr.Cutoff, len(pr.Stuck), e.paths)
+		for i, o := range pr.Stuck {
+			if i >= 2 {
+				break
+			}
+			fmt.Fprintln(os.Stderr, "  STUCK", o.Why, p.Pos(o.Pos))
+			for _, c := range o.St.conds {
+				fmt.Fprintln(os.Stderr, "     ", trunc(c.Key(), 200))
+			}
 		}
 	}
 	return pr
